@@ -127,6 +127,10 @@ def check_tuple(ctx: Ctx, rng, idx: int) -> None:
     lm = float(tn._log_gauss_mass(A, B)[0])
     ref = ref_logmass(mp, a, b)
     back = max([abs(ref_logmass(mp, a2, b2) - ref) for a2, b2 in perturbed(a, b)] or [0.0])
+    # the mass is a difference of two Phi values, each resolved to eps relative (absolute eps near 0.5): its
+    # relative error is about eps * Phi_side / mass, which dominates for narrow intervals around 0
+    side = 1.0 if a <= 0 < b else float(mp.erfc(-mp.mpf(b if b <= 0 else -a) / mp.sqrt(2)) / 2)
+    back += float(16 * EPS * side / mass(mp, a, b))
     tol = 1e-8 + 2e-9 * abs(ref) + back
     ctx.count("logmass_compared")
     if lm != lm:
